@@ -1,6 +1,7 @@
 import MosnVerif.Drive.Util
 import MosnVerif.Model.LB
 import MosnVerif.Model.Snapshot
+import MosnVerif.Drive.C05Hops
 namespace MosnVerif.Drive.C05
 open MosnVerif.Drive MosnVerif.Model.LB MosnVerif.Model.EDF
 
@@ -158,6 +159,7 @@ def run (caseToks impl : List String) : String :=
   | ["seq", pol, ops] => seq pol ops impl
   | ["snap", _, inter] => snap inter impl
   | ["conc", _, _, _] => conc impl
+  | ["hops", polsub, ops] => MosnVerif.Drive.C05Hops.hops polsub ops impl
   | _ => "E E unknown-kind"
 
 end MosnVerif.Drive.C05
